@@ -1,5 +1,6 @@
 pub mod c01;
 pub mod c05race;
+pub mod c04;
 pub mod c06;
 pub mod c09;
 pub mod c10;
@@ -39,6 +40,7 @@ pub fn by_id(id: &str) -> Option<Box<dyn Check>> {
         "C20" => Some(Box::new(c20::C20)),
         "C15" => Some(Box::new(c15::C15)),
         "C16" => Some(Box::new(c16::C16)),
+        "C04" => Some(Box::new(c04::C04)),
         "C06" => Some(Box::new(c06::C06)),
         "C10" => Some(Box::new(c10::C10)),
         "C11" => Some(Box::new(histchecks::HistCheck { prop: "C11" })),
